@@ -98,6 +98,14 @@ def run(chk):
     for rid, txt in (("R14.1", "encode/decode sequences agree"), ("R14.2", "automaton serialize <-> deserialize_unchecked"), ("R14.3", "remainder slice"),
                      ("R14.4", "fixed weight vectors"), ("R07.2", "single bincode configuration (shared with C07)"), ("R14.6", "unsafe witness")):
         chk.rule(rid, txt)
+    n_pairs = pairs(chk, w)
+    chk.floor("R14.1", "hand-written codec pairs", n_pairs, 7, other=5)
+    rest(chk, w)
+
+
+def pairs(chk, w):
+    """R14.1 / R14.2 for every hand-written codec pair (also run by C18: the unchecked indexing of a restored predictor relies
+    on the restored tables being the ones that were written)"""
     n_pairs = 0
     for adt in PAIRS:
         if chk.config != "W" and w.adt(adt) is None:
@@ -198,7 +206,10 @@ def run(chk):
                 nz = forms.Normalizer(itd, o)
                 okb = okb or "borrow_decode" in nz.value_atom(e[3][0]) or "borrow_decode" in C.show_arg(nz, e[3][0])
             chk.ob("R14.2", "%s:deserialises-decoded-bytes" % short, okb, "deserialize_unchecked is not applied to the byte slice decoded from the stream", site=C.site(bd))
-    chk.floor("R14.1", "hand-written codec pairs", n_pairs, 7, other=5)
+    return n_pairs
+
+
+def rest(chk, w):
     c = w.crates["vaporetto"]
     for adt in DERIVED:
         if chk.config != "W" and w.adt(adt) is None:
@@ -242,6 +253,7 @@ def run(chk):
     has_fixed = any(v["name"] == "Fixed" for v in w.adt("vaporetto::predictor::WeightVector")["variants"])
     if has_fixed or chk.config == "W":
       chk.ob("R14.4", "fixed:trimmed-vec", fx is not None and fx[0] == "seq<i32>" and "to_vec" in fx[1] and "trim_end_zeros" in fx[1], "a Fixed weight vector is encoded as %s; expected trim_end_zeros(w).to_vec()" % (fx,), site=C.site(be), sample={"rows": {k: list(v) for k, v in rows.items()}})
+      trim_table(chk, w)
     vr = rows.get("Variable")
     chk.ob("R14.4", "variable:vec", vr is not None and vr[0] == "seq<i32>", "a Variable weight vector is encoded as %s" % (vr,), site=C.site(be))
     dec, _ = C.impl_fn(w, "vaporetto::predictor::WeightVector", "bincode::de::Decode", "decode", hand_written=True)
@@ -255,3 +267,52 @@ def run(chk):
     c07.r072(chk, w)
     if chk.config == "W":
         witness.check(chk, "R14.6", "W146UnsafeDeserialize", 1, 1, "Predictor::deserialize_from_slice_unchecked must be an unsafe fn (E0133)")
+
+
+def trim_table(chk, w):
+    """trim_end_zeros may only drop zeros from the END of the slice: the decoder pads with zeros at the end, so anything else
+    that is cut changes the restored weights.  Decision table of one step of its loop, derived from the MIR:
+    (slice empty) -> return the slice; (last element != 0) -> return the slice unchanged; (last element == 0) -> continue
+    with the slice without its last element."""
+    fn = "vaporetto::utils::trim_end_zeros"
+    b = w.body(fn)
+    if b is None:
+        chk.undecided("R14.4", "trim:anchor", "%s not found although a Fixed weight vector is encoded through it" % fn)
+        return
+    chk.fn(fn)
+    cf = cfgmod.cfg_of(b)
+    loops = cf.natural_loops()
+    it = absint.Interp(w, b, models=effects.EXTRA_MODELS, summaries=C.summaries(w))
+    rows = set()
+    if len(loops) == 1:
+        h = list(loops)[0]
+        pre = [o for o in it.run(0, stop=[h]) if o.kind == "stop"]
+        entry_ok = bool(pre) and pre[0].value_at((("L", 1),)) in (absint.SYM("arg1"), ("ref", (("A", 1),)))
+        outs = it.run(h, env=pre[0].env, cons=pre[0].cons, stop_at_entry_again=True, trace=pre[0].trace, invariant=True) if pre else []
+        cur = absint.SYM("hv:loop%d:_1" % h)
+        for o in outs:
+            split = [e for e in o.trace[len(pre[0].trace):] if e[0] == "call" and (e[2] or "").endswith("[T]::split_last")]
+            if len(split) != 1:
+                rows.add(("?", "?", "no single split_last of the current slice"))
+                continue
+            sb = split[0][1]
+            on_cur = it.resolve(o, split[0][3][0]) in (cur, ("ref", (("S", "hv:loop%d:_1" % h),))) or split[0][3][0] == cur
+            r = o.cons.get("ret:%d" % sb)
+            var = r[2] if r and r[0] == "varis" else "?"
+            lastc = o.cons.get("m:*{ret:%d@Some.0.0}" % sb)
+            lc = "-" if var == "None" else "==0" if lastc == ("eq", absint.I(0)) else "!=0" if lastc and lastc[0] == "notin" and absint.I(0) in lastc[1] else "?"
+            if o.kind == "return":
+                act = "return-unchanged" if o.value_at((("L", 0),)) == cur else "return-other"
+            elif o.kind == "stop" and o.info == h:
+                act = "continue-with-rest" if o.value_at((("L", 1),)) == ("ref", (("S", "ret:%d@Some.0.1" % sb),)) else "continue-other"
+            else:
+                act = o.kind
+            rows.add((var, lc, act if on_cur else act + "(split of another slice)"))
+        want = {("None", "-", "return-unchanged"), ("Some", "!=0", "return-unchanged"), ("Some", "==0", "continue-with-rest")}
+        ok = entry_ok and rows == want
+    else:
+        ok = False
+        rows.add(("?", "?", "%d loops; the recognised idiom is the split_last loop" % len(loops)))
+    chk.ob("R14.4", "trim:drops-only-trailing-zeros", ok,
+           "trim_end_zeros derives the step table %s; specification: empty -> return, last != 0 -> return unchanged, last == 0 -> continue without the last element "
+           "(only zeros at the end may be dropped, because decoding pads with zeros at the end)" % sorted(rows), site=C.site(b), sample={"rows": sorted(map(str, rows))})
